@@ -171,6 +171,13 @@ macro_rules!generate_expr
 						ctx.push_error(args.convert(DirectiveErrorKind::Apply{dir: $label.to_owned(), source}));
 						return Err(ErrorLevel::Fatal);
 					},
+					Some(seg) if !seg.has_remaining($size) =>
+					{
+						// a full segment has no address left for a statement (`curr_addr` saturates at the top)
+						let source = Box::new(DataError::Write(SegmentError::Overflow{need: $size, have: seg.remaining()}));
+						ctx.push_error(args.convert(DirectiveErrorKind::Apply{dir: $label.to_owned(), source}));
+						return Err(ErrorLevel::Fatal);
+					},
 					Some(seg) => seg.curr_addr(),
 				};
 				const NUM_ARGS: usize = 1;
